@@ -67,7 +67,7 @@ impl QGen {
     fn assignment(&mut self) -> String {
         match self.rng.below(7) {
             0 => format!("ID {};", self.q()),
-            1 | 2 => format!("DATA {} {} {};", self.q(), self.q(), match self.rng.below(5) { 0 => self.q(), 1 => self.rng.pick(NUMS).to_string(), 2 => "true".into(), 3 => "false".into(), _ => self.q() }),
+            1 | 2 => format!("DATA {} {} {};", self.q(), self.q(), match self.rng.below(6) { 0 => self.q(), 1 => self.rng.pick(NUMS).to_string(), 2 => "true".into(), 3 => "false".into(), 4 => (*self.rng.pick(&["0.00001", "-0.0000002", "123456789012345678901.5", "10000000000000000.0", "0.5"])).to_string(), _ => self.q() }),
             3 => format!("DATA {} {};", self.q(), self.q()),
             4 => format!("TARGET {}{};", self.var(), self.offset()),
             5 => (*self.rng.pick(&["COMPOSITE;", "MULTI;", "DIRECTIONAL;"])).to_string(),
@@ -314,7 +314,12 @@ fn render_q(q: &Query) -> Option<String> {
 }
 
 /// canonical rendering of an ADD or DELETE query (StamModel/StamqlA.lean)
-fn render_mut(q: &Query) -> Option<String> {
+fn render_mut(q: &Query, text: &str) -> Option<String> {
+    // a float is named by the literal of the text that has its value (the model keeps the literal; that the value is the
+    // one Rust's `f64::from_str` gives for it is what this says)
+    let float_lit = |f: f64| -> String {
+        text.split(|c: char| c.is_whitespace() || c == ';').find(|t| t.contains('.') && t.chars().all(|c| c.is_ascii_digit() || c == '.' || c == '-') && t.parse::<f64>().ok() == Some(f)).map(|t| t.to_string()).unwrap_or_else(|| format!("{:?}", f))
+    };
     if q.attributes().next().is_some() || q.resulttype() != Some(Type::Annotation) { return None; }
     let name = q.name().map(|n| hex(n)).unwrap_or_else(|| "~".into());
     let mut subs = vec![];
@@ -326,7 +331,7 @@ fn render_mut(q: &Query) -> Option<String> {
             for a in q.assignments() {
                 asgs.push(match a {
                     Assignment::Id(s) => format!("id:{}", hex(s)),
-                    Assignment::Data { set, key, value } => format!("data:{}:{}:{}", hex(set), hex(key), match value { DataValue::Null => "n".to_string(), DataValue::Bool(b) => format!("b{}", *b as u8), DataValue::Int(i) => format!("i{}", i), DataValue::Float(f) => format!("f{:?}", f), DataValue::String(s) => format!("s{}", hex(s)), _ => return None }),
+                    Assignment::Data { set, key, value } => format!("data:{}:{}:{}", hex(set), hex(key), match value { DataValue::Null => "n".to_string(), DataValue::Bool(b) => format!("b{}", *b as u8), DataValue::Int(i) => format!("i{}", i), DataValue::Float(f) => format!("f{}", float_lit(*f)), DataValue::String(s) => format!("s{}", hex(s)), _ => return None }),
                     Assignment::Target { name, offset } => format!("target:{}:{}", hex(name), show_off(offset)),
                     Assignment::ComplexTarget(k) => format!("complex:{}", match k { SelectorKind::CompositeSelector => "composite", SelectorKind::MultiSelector => "multi", SelectorKind::DirectionalSelector => "directional", _ => return None }),
                     _ => return None,
@@ -340,7 +345,7 @@ fn render_mut(q: &Query) -> Option<String> {
 
 /// `ql q <hex text> <bad regexes>`: `Query::parse` on the text (structure, remainder), and `to_string` of what it parsed
 fn q_exec(text: &str) -> String {
-    match guarded(std::panic::AssertUnwindSafe(|| Query::parse(text).map(|(q, r)| (if q.querytype() == QueryType::Select { render_q(&q) } else { render_mut(&q) }, r.to_string(), if q.querytype() == QueryType::Select { q.to_string().ok() } else { None })).map_err(|e| format!("{}", e)))) {
+    match guarded(std::panic::AssertUnwindSafe(|| Query::parse(text).map(|(q, r)| (if q.querytype() == QueryType::Select { render_q(&q) } else { render_mut(&q, text) }, r.to_string(), if q.querytype() == QueryType::Select { q.to_string().ok() } else { None })).map_err(|e| format!("{}", e)))) {
         Err(m) => format!("panic:{}", m.chars().take(60).collect::<String>()),
         Ok(Err(_)) => "err".into(),
         Ok(Ok((None, _, _))) => "unmodelled".into(),
